@@ -46,6 +46,7 @@ class FrameData(IFLR):
         body = self._frame.obname + write_struct_uvari(self._frame_number)
 
         for s in self._slots:
-            body += s.byteswap().tobytes()
+            # big-endian representation, whatever the byte order of the source data is
+            body += np.asarray(s, dtype=s.dtype.newbyteorder('>')).tobytes()
 
         return body
